@@ -4,6 +4,7 @@ import VyxalModel.Lemmas.ParseToks
 import VyxalModel.Lemmas.Strings
 import VyxalModel.Lemmas.Number
 import VyxalModel.Lemmas.LexInv
+import VyxalModel.Lemmas.LexInvV
 import VyxalModel.Gen.Elements
 import VyxalModel.Gen.Modifiers
 /-!
@@ -52,6 +53,12 @@ theorem digits_ident (n : Nat) : IdentChars (digitsOfNat n) := by
 theorem lex_number_chars (s : Str) : ∀ t ∈ tokenise s, t.kind = .number → ∀ c ∈ t.value, isNumCh c = true :=
   tokenise_forall (fun t => t.kind = .number → ∀ c ∈ t.value, isNumCh c = true)
     (fun s t r h hk => lexStep_number_chars s t r h hk) s
+
+/-- the same for the lexer with the `V` flag (one-character variable names) -/
+theorem lexV_variable_letters (s : Str) :
+    ∀ t ∈ tokeniseV s, (t.kind = .vget ∨ t.kind = .vset) → ∀ c ∈ t.value, isLetter c = true :=
+  tokeniseVF_forall (fun t => (t.kind = .vget ∨ t.kind = .vset) → ∀ c ∈ t.value, isLetter c = true)
+    (fun s t r h hk => lexStepV_variable_letters s t r h hk) _ s
 
 theorem lex_variable_letters (s : Str) :
     ∀ t ∈ tokenise s, (t.kind = .vget ∨ t.kind = .vset) → ∀ c ∈ t.value, isLetter c = true :=
